@@ -6,6 +6,7 @@ import (
 	"crypto/x509"
 	"fmt"
 	"os"
+	"os/signal"
 	"strconv"
 	"syscall"
 	"time"
@@ -25,6 +26,8 @@ const (
 	envBundle = "C14_BUNDLE"   // file holding the DER of the base CRL to store
 	envStep   = "C14_KILLSTEP" // selfkill: hook step at which to SIGKILL itself
 	envDur    = "C14_DUR_MS"   // hammer: how long to keep calling Set
+	envDelta  = "C14_DELTA"    // optional: file holding the DER of the delta CRL to store with it
+	envFsize  = "C14_FSIZE"    // optional: RLIMIT_FSIZE of this process (SIGXFSZ ignored): writes beyond fail with EFBIG
 )
 
 func init() {
@@ -53,6 +56,28 @@ func childMain(mode string) int {
 	}
 	url := os.Getenv(envURL)
 	bundle := &corecrl.Bundle{BaseCRL: rl}
+	if dp := os.Getenv(envDelta); dp != "" {
+		dder, err := os.ReadFile(dp)
+		if err != nil {
+			fmt.Fprintln(os.Stderr, "child:", err)
+			return 4
+		}
+		if bundle.DeltaCRL, err = x509.ParseRevocationList(dder); err != nil {
+			fmt.Fprintln(os.Stderr, "child:", err)
+			return 4
+		}
+	}
+	if fs := os.Getenv(envFsize); fs != "" {
+		lim, err := strconv.ParseUint(fs, 10, 64)
+		if err != nil {
+			return 4
+		}
+		signal.Ignore(syscall.SIGXFSZ)
+		if err := syscall.Setrlimit(syscall.RLIMIT_FSIZE, &syscall.Rlimit{Cur: lim, Max: lim}); err != nil {
+			fmt.Fprintln(os.Stderr, "child: setrlimit:", err)
+			return 4
+		}
+	}
 	ctx := context.Background()
 	switch mode {
 	case "step":
